@@ -12,6 +12,7 @@ import (
 	storetypes "cosmossdk.io/store/types"
 	sdk "github.com/cosmos/cosmos-sdk/types"
 	banktypes "github.com/cosmos/cosmos-sdk/x/bank/types"
+	distrtypes "github.com/cosmos/cosmos-sdk/x/distribution/types"
 
 	"verif/harness/chain"
 	"verif/harness/drv"
@@ -46,50 +47,93 @@ type farmEnv struct {
 	fee     int64
 	taxNum  int64
 	taxDen  int64
-	last    chain.M // last projected state
+	last    chain.M       // last projected state
+	opts    chain.Options // how the application was built (reimport builds another one)
+	// governance-funded pools (gov.go)
+	wired     bool
+	proposers []string
+	initCP    int64
+	minDep    int64
+	thrNum    int64
+	thrDen    int64
+	govDP     int64
+	govVP     int64
+	cNum      int64
+	cDen      int64
+	burnPre   bool
+	burnQ     bool
+	burnV     bool
 }
 
-func newFarmEnv(fl *drv.Flags) *farmEnv {
+func newFarmEnv(fl *drv.Flags, wired bool) *farmEnv {
 	e := &farmEnv{
-		prec:    fl.CfgInt("prec", 10),
-		users:   []string{"u1", "u2", "u3"}[:fl.CfgInt("users", 2)],
-		rdenoms: []string{"rw1", "rw2"}[:fl.CfgInt("rdenoms", 1)],
-		lp:      "lpt-1",
-		feeDen:  "stake",
-		names:   map[string]string{},
-		off:     map[string]sdkmath.Int{},
-		donated: map[string]int64{},
-		initLP:  fl.CfgInt("initlp", 3),
-		initR:   fl.CfgInt("initr", 20),
-		fee:     fl.CfgInt("fee", 5),
-		taxNum:  fl.CfgInt("taxnum", 2),
-		taxDen:  fl.CfgInt("taxden", 5),
+		wired:     wired,
+		proposers: []string{"g1", "g2"}[:fl.CfgInt("proposers", 1)],
+		minDep:    fl.CfgInt("mindep", 4),
+		thrNum:    fl.CfgInt("thrnum", 1),
+		thrDen:    fl.CfgInt("thrden", 2),
+		govDP:     fl.CfgInt("govdp", 2),
+		govVP:     fl.CfgInt("govvp", 2),
+		cNum:      fl.CfgInt("cnum", 1),
+		cDen:      fl.CfgInt("cden", 2),
+		burnPre:   fl.CfgInt("burnpre", 0) == 1,
+		burnQ:     fl.CfgInt("burnq", 0) == 1,
+		burnV:     fl.CfgInt("burnv", 1) == 1,
+		prec:      fl.CfgInt("prec", 10),
+		users:     []string{"u1", "u2", "u3"}[:fl.CfgInt("users", 2)],
+		rdenoms:   []string{"rw1", "rw2"}[:fl.CfgInt("rdenoms", 1)],
+		lp:        "lpt-1",
+		feeDen:    "stake",
+		names:     map[string]string{},
+		off:       map[string]sdkmath.Int{},
+		donated:   map[string]int64{},
+		initLP:    fl.CfgInt("initlp", 3),
+		initR:     fl.CfgInt("initr", 20),
+		fee:       fl.CfgInt("fee", 5),
+		taxNum:    fl.CfgInt("taxnum", 2),
+		taxDen:    fl.CfgInt("taxden", 5),
 	}
+	e.initCP = fl.CfgInt("initcp", map[bool]int64{false: 0, true: 20}[wired])
 	e.unit = new(big.Int).Quo(new(big.Int).Exp(big.NewInt(10), big.NewInt(18), nil), big.NewInt(e.prec))
 	accts := map[string]string{"lpsrc": "2000000000000000000000stake,2000000000000000000000btc"}
-	for _, u := range e.users {
+	if e.initCP > 0 {
+		s := ""
+		for _, d := range e.rdenoms {
+			s += fmt.Sprintf(",%d%s", e.initCP, d)
+		}
+		accts["cpsrc"] = s[1:]
+	}
+	for _, u := range append(append([]string{}, e.users...), e.proposers...) {
 		s := fmt.Sprintf("%d%s", e.initR, e.feeDen)
 		for _, d := range e.rdenoms {
 			s += fmt.Sprintf(",%d%s", e.initR, d)
 		}
 		accts[u] = s
 	}
-	e.c = chain.New(chain.Options{
-		Accounts: accts,
-		MutateGenesis: func(c *chain.Chain, gs simapp.GenesisState) {
-			cdc := c.App.AppCodec()
-			var fg farmtypes.GenesisState
-			cdc.MustUnmarshalJSON(gs[farmtypes.ModuleName], &fg)
-			fg.Params.PoolCreationFee = sdk.NewInt64Coin(e.feeDen, e.fee)
-			fg.Params.TaxRate = sdkmath.LegacyNewDec(e.taxNum).QuoInt64(e.taxDen)
-			fg.Params.MaxRewardCategories = 2
-			gs[farmtypes.ModuleName] = cdc.MustMarshalJSON(&fg)
-		},
-	})
+	opts := chain.Options{}
+	if wired {
+		opts.ExtraConfig = farmGovWiring()
+		opts.AfterBuild = farmEscrowAccount
+	}
+	opts.Accounts = accts
+	opts.MutateGenesis = func(c *chain.Chain, gs simapp.GenesisState) {
+		cdc := c.App.AppCodec()
+		var fg farmtypes.GenesisState
+		cdc.MustUnmarshalJSON(gs[farmtypes.ModuleName], &fg)
+		fg.Params.PoolCreationFee = sdk.NewInt64Coin(e.feeDen, e.fee)
+		fg.Params.TaxRate = sdkmath.LegacyNewDec(e.taxNum).QuoInt64(e.taxDen)
+		fg.Params.MaxRewardCategories = 2
+		gs[farmtypes.ModuleName] = cdc.MustMarshalJSON(&fg)
+		e.govGenesis(c, gs)
+	}
+	e.opts = opts
+	e.c = chain.New(opts)
 	c := e.c
-	for _, n := range append([]string{"lpsrc"}, e.users...) {
+	for _, n := range append(append([]string{"lpsrc"}, e.users...), e.proposers...) {
 		e.names[c.Accts[n].Addr.String()] = n
 	}
+	// pools created by a passed proposal belong to the distribution module account
+	e.names[chain.ModuleAddr(distrtypes.ModuleName).String()] = "feepool"
 	// block 2: create the coinswap pool lpt-1 and hand LP tokens to the users
 	big21, _ := sdkmath.NewIntFromString("1000000000000000000000")
 	src := c.Accts["lpsrc"]
@@ -101,6 +145,9 @@ func newFarmEnv(fl *drv.Flags) *farmEnv {
 		amt := sdkmath.NewIntFromBigInt(new(big.Int).Mul(big.NewInt(e.initLP), e.unit))
 		txs = append(txs, chain.Tx{Signer: "lpsrc", Msgs: []sdk.Msg{
 			banktypes.NewMsgSend(src.Addr, c.Accts[u].Addr, sdk.NewCoins(sdk.NewCoin(e.lp, amt)))}})
+	}
+	if e.initCP > 0 {
+		txs = append(txs, e.fundCommunityPoolTx())
 	}
 	r := c.RunBlock(5*time.Second, txs)
 	for i, t := range r.Txs {
@@ -114,6 +161,9 @@ func newFarmEnv(fl *drv.Flags) *farmEnv {
 		sum := sdkmath.ZeroInt()
 		for _, a := range e.accounts() {
 			sum = sum.Add(e.balOf(ctx, a, d))
+		}
+		for _, a := range e.gaccounts() {
+			sum = sum.Add(e.gbalOf(ctx, a, d))
 		}
 		e.off[d] = c.Supply(ctx, d).Sub(sum)
 	}
@@ -247,13 +297,19 @@ func (e *farmEnv) project(ctx sdk.Context) any {
 		inv, broken = farmInvariant(k, ctx)
 	}()
 	_ = inv
-	return chain.M{
+	gov := chain.M{}
+	e.projectGov(ctx, gov, &inexact)
+	out := chain.M{
 		"h": h, "prec": e.prec, "seq": int64(k.GetSequence(ctx)),
 		"params": chain.M{"fee": sm(params.PoolCreationFee.Amount), "taxNum": e.taxNum, "taxDen": e.taxDen,
 			"maxCat": int64(params.MaxRewardCategories)},
 		"pools": pools, "fi": fi, "queue": queue, "bal": bal, "supply": supply, "donated": don,
 		"inexact": int64(inexact), "invBroken": broken,
 	}
+	for k, v := range gov {
+		out[k] = v
+	}
+	return out
 }
 
 func (e *farmEnv) withDonated(st any) any {
@@ -281,7 +337,7 @@ func (e *farmEnv) lpCoin(k int64) sdk.Coin {
 // msgOf maps an abstract event to a real message; nil for non-message events.
 func (e *farmEnv) msgOf(ev chain.M) sdk.Msg {
 	c := e.c
-	who := chain.Str(ev, "who")
+	who := signerOf(chain.Str(ev, "who"))
 	var addr string
 	if a, ok := c.Accts[who]; ok {
 		addr = a.Addr.String()
@@ -312,26 +368,39 @@ func (e *farmEnv) msgOf(ev chain.M) sdk.Msg {
 		}
 		return banktypes.NewMsgSend(c.Accts[who].Addr, chain.ModuleAddr(farmtypes.ModuleName), sdk.NewCoins(coin))
 	}
-	return nil
+	return e.govMsgOf(ev, addr)
 }
 
 func farmEvent(name, who, pool string, amt int64) chain.M {
 	return chain.M{"name": name, "who": who, "pool": pool, "amt": amt, "lpt": "", "total": chain.M{}, "rpb": chain.M{},
-		"start": int64(0), "editable": false, "ok": true, "panic": false, "halt": false, "reward": chain.M{}}
+		"start": int64(0), "editable": false, "ok": true, "panic": false, "halt": false, "reward": chain.M{},
+		"bond": chain.M{}}
+}
+
+// signerOf: the model's voter "val" is the delegator of the only validator,
+// the chain's probe account.
+func signerOf(who string) string {
+	if who == "val" {
+		return chain.ProbeName
+	}
+	return who
 }
 
 // normalise an abstract event read from JSON into the fixed record shape
 func (e *farmEnv) norm(ev chain.M) chain.M {
 	o := farmEvent(chain.Str(ev, "name"), chain.Str(ev, "who"), chain.Str(ev, "pool"), chain.Num(ev, "amt"))
 	o["lpt"] = chain.Str(ev, "lpt")
-	tot, rpb := chain.M{}, chain.M{}
+	tot, rpb, bond := chain.M{}, chain.M{}, chain.M{}
 	for k, v := range chain.Obj(ev, "total") {
 		tot[k] = v
 	}
 	for k, v := range chain.Obj(ev, "rpb") {
 		rpb[k] = v
 	}
-	o["total"], o["rpb"] = tot, rpb
+	for k, v := range chain.Obj(ev, "bond") {
+		bond[k] = v
+	}
+	o["total"], o["rpb"], o["bond"] = tot, rpb, bond
 	o["start"] = chain.Num(ev, "start")
 	o["editable"] = chain.Bool(ev, "editable")
 	return o
@@ -372,7 +441,7 @@ func (e *farmEnv) rewardOf(r chain.TxResult, name string) chain.M {
 func (e *farmEnv) runBlock(pending []chain.M, w *chain.TraceWriter) bool {
 	var txs []chain.Tx
 	for _, ev := range pending {
-		who := chain.Str(ev, "who")
+		who := signerOf(chain.Str(ev, "who"))
 		if _, ok := e.c.Accts[who]; !ok {
 			who = e.users[0]
 		}
@@ -418,7 +487,13 @@ func (e *farmEnv) runBlock(pending []chain.M, w *chain.TraceWriter) bool {
 
 // run executes one abstract behaviour on a fresh chain.
 func farmRun(fl *drv.Flags, beh []chain.M, w *chain.TraceWriter, epilogue bool) {
-	e := newFarmEnv(fl)
+	// a behaviour with governance events runs on the completed wiring unless
+	// the configuration says otherwise (gov=0: the application as /repo builds it)
+	hasGov := false
+	for _, raw := range beh {
+		hasGov = hasGov || isGovEvent(chain.Str(raw, "name"))
+	}
+	e := newFarmEnv(fl, fl.CfgInt("gov", map[bool]int64{false: 0, true: 1}[hasGov]) == 1)
 	init := farmEvent("Init", "", "", 0)
 	e.last = e.project(e.c.Ctx()).(chain.M)
 	w.Write(init, e.last)
@@ -430,6 +505,19 @@ func farmRun(fl *drv.Flags, beh []chain.M, w *chain.TraceWriter, epilogue bool) 
 			alive = e.runBlock(pending, w)
 			pending = nil
 			if !alive {
+				return
+			}
+			continue
+		}
+		if chain.Str(ev, "name") == "Reimport" {
+			// between blocks: messages collected so far go into a block of their own
+			if len(pending) > 0 {
+				if !e.runBlock(pending, w) {
+					return
+				}
+				pending = nil
+			}
+			if !e.reimport(w) {
 				return
 			}
 			continue
@@ -499,10 +587,11 @@ func farmDriver(mode string, fl *drv.Flags) error {
 // farmRandom runs one random history: events are generated block by block
 // from the last observed state, so most are enabled, some deliberately not.
 func farmRandom(fl *drv.Flags, rng *rand.Rand, w *chain.TraceWriter) {
-	e := newFarmEnv(fl)
+	e := newFarmEnv(fl, fl.CfgInt("gov", 0) == 1)
 	e.last = e.project(e.c.Ctx()).(chain.M)
 	w.Write(farmEvent("Init", "", "", 0), e.last)
 	maxPools := int(fl.CfgInt("maxpools", 2))
+	reimports := fl.CfgInt("reimport", 0) == 1
 	blocks := fl.Len
 	for b := 0; b < blocks; b++ {
 		var pending []chain.M
@@ -510,15 +599,35 @@ func farmRandom(fl *drv.Flags, rng *rand.Rand, w *chain.TraceWriter) {
 		pools := e.last["pools"].(chain.M)
 		ids := chain.SortedKeys(pools)
 		h := e.last["h"].(int64)
+		// most operations go to pools that are still running (expired pools
+		// stay in the store for ever and would soak up the whole history)
+		var running []string
+		for _, p := range ids {
+			if pools[p].(chain.M)["end"].(int64) >= h {
+				running = append(running, p)
+			}
+		}
+		pick := func() string {
+			if len(running) > 0 && rng.Intn(5) > 0 {
+				return running[rng.Intn(len(running))]
+			}
+			return ids[rng.Intn(len(ids))]
+		}
 		for j := 0; j < n; j++ {
 			u := e.users[rng.Intn(len(e.users))]
+			if e.wired && rng.Intn(20) < 7 {
+				if ev := e.randomGov(rng, int(fl.CfgInt("maxprops", 4))); ev != nil {
+					pending = append(pending, ev)
+					continue
+				}
+			}
 			switch x := rng.Intn(20); {
 			case x == 19 && rng.Intn(3) == 0:
 				// environment action: a plain bank send to the farm module account
 				ev := farmEvent("Donate", u, "", int64(1+rng.Intn(2)))
 				ev["lpt"] = append(append([]string{}, e.rdenoms...), e.lp)[rng.Intn(len(e.rdenoms)+1)]
 				pending = append(pending, ev)
-			case x < 3 && len(ids) < maxPools:
+			case x < 3 && len(running) < maxPools && len(ids) < maxPools+4:
 				ev := farmEvent("CreatePool", u, "", 0)
 				tot, rpb := chain.M{}, chain.M{}
 				k := 1 + rng.Intn(len(e.rdenoms))
@@ -537,9 +646,9 @@ func farmRandom(fl *drv.Flags, rng *rand.Rand, w *chain.TraceWriter) {
 			case len(ids) == 0:
 				continue
 			case x < 9:
-				pending = append(pending, farmEvent("Stake", u, ids[rng.Intn(len(ids))], int64(1+rng.Intn(3))))
+				pending = append(pending, farmEvent("Stake", u, pick(), int64(1+rng.Intn(3))))
 			case x < 13:
-				p := ids[rng.Intn(len(ids))]
+				p := pick()
 				amt := int64(1 + rng.Intn(3))
 				if infos, ok := e.last["fi"].(chain.M)[p].(chain.M); ok {
 					if in, ok := infos[u].(chain.M); ok && rng.Intn(3) > 0 {
@@ -548,12 +657,12 @@ func farmRandom(fl *drv.Flags, rng *rand.Rand, w *chain.TraceWriter) {
 				}
 				pending = append(pending, farmEvent("Unstake", u, p, amt))
 			case x < 16:
-				pending = append(pending, farmEvent("Harvest", u, ids[rng.Intn(len(ids))], 0))
+				pending = append(pending, farmEvent("Harvest", u, pick(), 0))
 			case x < 19:
-				p := ids[rng.Intn(len(ids))]
+				p := pick()
 				who := u
-				if rng.Intn(4) > 0 {
-					who = pools[p].(chain.M)["creator"].(string)
+				if cr := pools[p].(chain.M)["creator"].(string); rng.Intn(4) > 0 && cr != "feepool" {
+					who = cr
 				}
 				ev := farmEvent("AdjustPool", who, p, 0)
 				rules := pools[p].(chain.M)["rules"].(chain.M)
@@ -569,16 +678,21 @@ func farmRandom(fl *drv.Flags, rng *rand.Rand, w *chain.TraceWriter) {
 				ev["total"], ev["rpb"] = tot, rpb
 				pending = append(pending, ev)
 			default:
-				p := ids[rng.Intn(len(ids))]
+				p := pick()
 				who := u
-				if rng.Intn(3) > 0 {
-					who = pools[p].(chain.M)["creator"].(string)
+				if cr := pools[p].(chain.M)["creator"].(string); rng.Intn(3) > 0 && cr != "feepool" {
+					who = cr
 				}
 				pending = append(pending, farmEvent("DestroyPool", who, p, 0))
 			}
 		}
 		if !e.runBlock(pending, w) {
 			return
+		}
+		if reimports && rng.Intn(12) == 0 {
+			if !e.reimport(w) {
+				return
+			}
 		}
 	}
 	e.epilogue(w)
